@@ -17,7 +17,9 @@
 //!   swap with next sibling; splice in the first node of every other tag
 //!   found in the same object; wrap in `d` levels of constructed nesting;
 //!   for primitive string-typed nodes the 24 BER "constructed string"
-//!   spellings of [`CONS_VARIANTS`].
+//!   spellings of [`CONS_VARIANTS`]; typed value menus, list-shape
+//!   operators and size classes ([`SIZE_CLASSES`]: grow a value to 127 ...
+//!   65537 octets of content by padding, filler elements or repetition).
 //!
 //! A deviation is *local*: when an operator changes the size of a node, the
 //! length fields of all its ancestors are re-encoded (minimal definite form)
@@ -90,6 +92,70 @@ pub enum Op {
     Value(u16),
     /// reorder / extend the children of a constructed node
     List(ListOp),
+    /// append this many zero octets to the content
+    Pad(u32),
+    /// bring the node's content length to size class k of [`SIZE_CLASSES`]
+    /// (all ancestor lengths follow): `Size(how, k)` with how = 0: a
+    /// primitive value is padded with zero octets (or cut), a constructed one
+    /// gets a well-formed filler element appended (an unknown attribute
+    /// `SEQUENCE { OID 1.2.3.4, SET { OCTET STRING } }` of the missing size);
+    /// 1: the last element is repeated, a filler makes up the rest; 2: the
+    /// last leaf inside the last element is padded.
+    Size(u8, u8),
+}
+
+/// Content lengths a value is grown to: both sides of the short/long length
+/// form boundaries and of the 16-bit boundary.
+pub const SIZE_CLASSES: [usize; 7] = [127, 128, 255, 256, 65535, 65536, 65537];
+
+/// Nodes the size-class operators are applied to: strings, integers,
+/// SEQUENCE, SET and every context-tagged node.
+pub fn is_sized_tag(tag: u8) -> bool {
+    matches!(tag, 0x02 | 0x03 | 0x04 | 0x0c | 0x13 | 0x16 | 0x30 | 0x31) || tag & 0xc0 == 0x80
+}
+
+/// Well-formed filler of exactly `r` octets (r >= 2): one or two unknown
+/// attributes `SEQUENCE { OID 1.2.3.4, SET { OCTET STRING (zeros) } }`; for
+/// fewer than 11 octets a bare OCTET STRING.
+pub fn filler(r: usize) -> Vec<u8> {
+    let attr = |k: usize| der::seq(&[der::oid(&[1, 2, 3, 4]), der::set_unsorted(&[der::octets(&vec![0u8; k])])]);
+    if r < 2 { return vec![0; r] }
+    if r < 11 { return der::octets(&vec![0u8; r - 2]) }
+    let fit = |r: usize| -> Option<Vec<u8>> {
+        for k in (r.saturating_sub(16)..=r.saturating_sub(11)).rev() { let a = attr(k); if a.len() == r { return Some(a) } }
+        None
+    };
+    if let Some(a) = fit(r) { return a }
+    // the length form changes between two payload sizes: make up the difference with a second, empty attribute
+    let small = attr(0);
+    if r >= small.len() + 11 { if let Some(a) = fit(r - small.len()) { let mut o = small; o.extend(a); return o } }
+    der::octets(&vec![0u8; r - 4.min(r)])
+}
+
+/// Grows the TLV by exactly `extra` octets by padding its last leaf.
+fn grow_last_leaf(tlv: &[u8], extra: usize) -> Vec<u8> {
+    let Some(t) = Tree::parse(tlv) else { let mut o = tlv.to_vec(); o.extend(filler(extra)); return o };
+    let leaf = (0..t.len()).rev().find(|&i| t.nodes[i].children.is_empty()).unwrap_or(0);
+    for p in (extra.saturating_sub(16)..=extra).rev() {
+        let o = t.apply1(tlv, leaf, Op::Pad(p as u32));
+        if o.len() == tlv.len() + extra { return o }
+    }
+    t.apply1(tlv, leaf, Op::Pad(extra as u32))
+}
+
+fn apply_size_op(kids: &mut Vec<Vec<u8>>, how: u8, target: usize) {
+    let l: usize = kids.iter().map(|k| k.len()).sum();
+    if l >= target || kids.is_empty() { return }
+    match how {
+        0 => kids.push(filler(target - l)),
+        1 => {
+            let last = kids.last().unwrap().clone();
+            let mut l = l;
+            while !last.is_empty() && l + last.len() <= target { kids.push(last.clone()); l += last.len() }
+            if target - l >= 2 { kids.push(filler(target - l)) }
+        }
+        _ => { let last = kids.pop().unwrap(); kids.push(grow_last_leaf(&last, target - l)) }
+    }
 }
 
 /// List-shape operators (at every constructed node: SEQUENCE OF / SET OF
@@ -325,6 +391,8 @@ impl Op {
             Op::Nest(d) => format!("nest-indef{d}"),
             Op::NestDef(d) => format!("nest-def{d}"),
             Op::Value(k) => format!("value#{k}"),
+            Op::Pad(p) => format!("pad+{p}"),
+            Op::Size(how, k) => format!("size:{}={}", ["pad-or-filler", "repeat-last", "grow-last-leaf"][how as usize % 3], SIZE_CLASSES[k as usize % SIZE_CLASSES.len()]),
             Op::List(l) => match l {
                 ListOp::Reverse => "list:reverse".into(), ListOp::RotL => "list:first-to-end".into(), ListOp::RotR => "list:last-to-front".into(),
                 ListOp::SortDesc => "list:sort-descending".into(), ListOp::DupModFirst => "list:dup-first-modified".into(), ListOp::DupModLast => "list:dup-last-modified".into(),
@@ -506,6 +574,13 @@ impl Tree {
         if is_string_tag(n.tag) { for k in 0..CONS_VARIANTS.len() as u8 { v.push(Op::Cons(k)) } }
         if n.children.is_empty() || n.tag & 0x20 == 0 { for k in 0..typed_value_count(n.tag) { v.push(Op::Value(k as u16)) } }
         for l in self.list_menu(i) { v.push(Op::List(l)) }
+        if is_sized_tag(n.tag) {
+            let constructed = n.tag & 0x20 != 0 && !n.children.is_empty();
+            for k in 0..SIZE_CLASSES.len() as u8 {
+                v.push(Op::Size(0, k));
+                if constructed { v.push(Op::Size(1, k)); v.push(Op::Size(2, k)) }
+            }
+        }
         if n.parent.is_some() {
             v.push(Op::Delete);
             v.push(Op::Duplicate);
@@ -586,7 +661,8 @@ impl Tree {
         // content, with the descendants' deviations applied
         let raw_content = &seed[n.start + n.hdr..n.content_end()];
         let listop = match mine { Some(Op::List(l)) if !n.children.is_empty() => Some(l), _ => None };
-        let rebuilt: Option<Vec<u8>> = if below || listop.is_some() {
+        let sizeop = match mine { Some(Op::Size(how, k)) if n.tag & 0x20 != 0 && !n.children.is_empty() => Some((how, SIZE_CLASSES[k as usize % SIZE_CLASSES.len()])), _ => None };
+        let rebuilt: Option<Vec<u8>> = if below || listop.is_some() || sizeop.is_some() {
             let mut order: Vec<usize> = n.children.clone();
             let mut k = 0;
             while k + 1 < order.len() {
@@ -594,6 +670,7 @@ impl Tree {
             }
             let mut kids: Vec<Vec<u8>> = order.iter().map(|&ch| { let mut c = Vec::new(); self.emit(seed, ch, ops, &mut c); c }).collect();
             if let Some(l) = listop { apply_list_op(&mut kids, l) }
+            if let Some((how, target)) = sizeop { apply_size_op(&mut kids, how, target) }
             Some(kids.concat())
         } else { None };
         let content: &[u8] = rebuilt.as_deref().unwrap_or(raw_content);
@@ -612,6 +689,15 @@ impl Tree {
         let l = content.len();
         match mine {
             None | Some(Op::SwapNext) | Some(Op::List(_)) => plain(n.tag, out),
+            Some(Op::Size(_, _)) if sizeop.is_some() => plain(n.tag, out),
+            Some(Op::Size(_, k)) => {
+                let mut c = content.to_vec(); c.resize(SIZE_CLASSES[k as usize % SIZE_CLASSES.len()], 0);
+                out.push(n.tag); out.extend(der::len_octets(c.len())); out.extend_from_slice(&c);
+            }
+            Some(Op::Pad(p)) => {
+                let mut c = content.to_vec(); c.resize(l + p as usize, 0);
+                out.push(n.tag); out.extend(der::len_octets(c.len())); out.extend_from_slice(&c);
+            }
             Some(Op::Value(k)) => {
                 let (t, c) = typed_value(n.tag, content, k as usize);
                 out.push(t); out.extend(der::len_octets(c.len())); out.extend_from_slice(&c);
